@@ -259,7 +259,7 @@ def make_array(clsname: str, folder: Path, g: dict, keep: list):
 
 def observe(arr, g: dict, gkeys_py: list, size: int) -> dict:
     internal = bool(g["internal"])
-    o: dict = {"get": [out_block(lambda k=k: arr[k]) for k in gkeys_py]}
+    o: dict = {"get": [out_block(lambda k=k: arr[k]) for k in gkeys_py]}    # gkeys_py = [] for a light event
     o["ta_none"] = out_block(lambda: arr.to_array()) if internal else out_unsplat(lambda: arr.to_array())
     o["ta_true"] = out_block(lambda: arr.to_array(splat_internal=True))
     o["ta_false"] = out_unsplat(lambda: arr.to_array(splat_internal=False))
@@ -277,8 +277,9 @@ def observe(arr, g: dict, gkeys_py: list, size: int) -> dict:
     return o
 
 
-def replay_ops(clsname: str, g: dict, ops: list[dict], gkeys: list, obs: str, scratch: str) -> dict:
-    """Run `ops` on a fresh object of class `clsname`; record every mutator outcome and all observations."""
+def replay_ops(clsname: str, g: dict, ops: list[dict], gkeys: list, obs: str, scratch: str, light: bool = False) -> dict:
+    """Run `ops` on a fresh object of class `clsname`; record every mutator outcome and all observations.
+    light: the __getitem__ observations are made after the last step only (all other observers after every step)."""
     tmp = tempfile.mkdtemp(prefix="arr_", dir=scratch)
     folder = Path(tmp) / "store"          # must not exist yet (DictArray loads from an existing folder)
     size = int(np.prod(g["shape"])) if g["shape"] else 1
@@ -288,7 +289,9 @@ def replay_ops(clsname: str, g: dict, ops: list[dict], gkeys: list, obs: str, sc
     try:
         NumpyRef._disk.pop(str(folder), None)
         arr = make_array(clsname, folder, g, keep)
-        ev.append({"op": "new", "key": [], "val": dict(MISSING_VAL), "exc": "", "o": observe(arr, g, gk, size)})
+        full_at = (lambda t: t == len(ops)) if light else (lambda t: True)
+        ev.append({"op": "new", "key": [], "val": dict(MISSING_VAL), "exc": "", "gk": int(full_at(0)),
+                   "o": observe(arr, g, gk if full_at(0) else [], size)})
         for t, op in enumerate(ops, 1):
             exc = ""
             try:
@@ -303,7 +306,7 @@ def replay_ops(clsname: str, g: dict, ops: list[dict], gkeys: list, obs: str, sc
             except Exception as ex:  # noqa: BLE001  a raise is an event, never a gap
                 exc = type(ex).__name__
             ev.append({"op": op["op"], "key": op["key"], "val": {"shape": op["val"]["shape"], "data": op["val"]["data"]},
-                       "exc": exc, "o": observe(arr, g, gk, size)})
+                       "exc": exc, "gk": int(full_at(t)), "o": observe(arr, g, gk if full_at(t) else [], size)})
     finally:
         NumpyRef._disk.pop(str(folder), None)
         shutil.rmtree(tmp, ignore_errors=True)
@@ -314,8 +317,9 @@ def _worker(job):
     clsname, gid, ops, obs, sid = job
     geo = _G["geoms"][gid]
     gkeys = geo["gkeys"] if obs == "full" else _G["rand_gkeys"][sid]
+    light = obs == "full" and sid[1] % _G.get("full_every", 1) != 0
     try:
-        tr = replay_ops(clsname, geo["g"], ops, gkeys, obs, _G["scratch"])
+        tr = replay_ops(clsname, geo["g"], ops, gkeys, obs, _G["scratch"], light)
     except Exception as ex:  # noqa: BLE001  constructor failed etc.: the harness could not even start
         return {"machinery": f"{clsname} {geo['g']}: {type(ex).__name__}: {ex}"}
     tr["sid"] = sid
@@ -516,7 +520,7 @@ def classify(tr: dict, items: list[dict], check: str) -> list[tuple[dict, dict]]
         obs = observed_item(tr, it)
         exc = obs.get("exc", "") if isinstance(obs, dict) else ("raised" if obs == RAISED else "")
         kind = "observer_raises" if exc else ("dump_wrong_cells" if e["op"] == "dump" else "state_changed")
-        return [(dict(mut, clause="state", kind=kind, exc=exc, observer=it["c"]), it)]
+        return [(dict(mut, clause="state", kind=kind, exc=exc), it)]
     out, seen = [], set()
     for it in items:
         obs = observed_item(tr, it)
@@ -567,9 +571,13 @@ def report(ctx: Ctx, traces: list[dict], owners: dict[int, list[dict]], rejected
                             f"{'[' + key_str(tr['gkeys'][it['i'] - 1]) + ']' if it['c'] == 'get' else ''}"
                             f"{'(' + str(it['i'] - 1) + ')' if it['c'] in ('has', 'gfi') else ''} "
                             f"observed {short(observed_item(tr, it))}, required {short(it['exp'])}")
-                    ctx.violation(sig, what, {"cls": own["cls"], "g": tr["g"], "ops": tr["ops"], "obs": tr["obs"],
-                                              "gkeys": tr["gkeys"], "check": check, "rejected_at": rejected[i],
-                                              "item": it, "observed": observed_item(tr, it)})
+                    nsig = _G.setdefault("nsig", {})
+                    nsig[k] = nsig.get(k, 0) + 1
+                    wit = {"cls": own["cls"], "g": tr["g"], "ops": tr["ops"], "obs": tr["obs"], "check": check}
+                    if nsig[k] <= 2:      # full replayable witness for the first ones only (memory)
+                        wit.update({"gkeys": tr["gkeys"], "rejected_at": rejected[i], "item": it,
+                                    "observed": observed_item(tr, it)})
+                    ctx.violation(sig, what, wit)
                 if any(it["c"] == "outcome" or it["c"] in STATE_CLAUSES for it in here):
                     break
 
@@ -613,8 +621,9 @@ def validate(ctx: Ctx, traces: list[dict], name: str, check: str) -> list[dict]:
         owners.setdefault(i, []).append({"cls": t["cls"], "sid": t["sid"]})
     rej = validate_traces(ctx, "TraceStorage", dist, name, invariants=["InvWellFormed", "InvMask"],
                           strip=STRIP + ("digest",), chunk=600, constants="Diag = FALSE")
-    # validate_traces counted distinct histories; every recorded history was decided
-    ctx.traces_validated += sum(len(owners[i]) for i in range(len(dist)) if i not in rej) - (len(dist) - len(rej))
+    # validate_traces counted the distinct accepted histories; count the accepted histories of REAL classes instead
+    ctx.traces_validated += sum(1 for i in range(len(dist)) if i not in rej for o in owners[i] if o["cls"] != REF) \
+        - (len(dist) - len(rej))
     report(ctx, dist, owners, rej, name, check)
     ctx.extra.setdefault("distinct_histories_validated", 0)
     ctx.extra["distinct_histories_validated"] += len(dist)
@@ -650,7 +659,7 @@ def validate_and_compare(ctx: Ctx, traces: list[dict], name: str, check: str) ->
 def selftest_binding(ctx: Ctx, accepted: list[dict]) -> None:
     """Corrupt one logged observation of one accepted history: TLC must reject exactly that history at that
     event, and the diagnostic mode must name exactly the corrupted item."""
-    cands = [t for t in accepted if len(t["ev"]) >= 3 and t["ev"][1]["op"] == "dump" and not t["ev"][1]["exc"]
+    cands = [t for t in accepted if len(t["ev"]) >= 2 and t["ev"][1]["op"] == "dump" and not t["ev"][1]["exc"]
              and any(x["data"] for x in t["ev"][1]["o"]["get"])]
     if len(cands) < 3:
         raise MachineryError("binding self-test: no accepted history to corrupt")
@@ -733,11 +742,14 @@ def run(ctx: Ctx) -> None:
         "0..size-1; the exception class of get_from_index on an unwritten index; non-tuple keys",
         "SharedMemoryDictArray runs on a sample of the sequences (mostly with one shared Manager per worker via "
         "mapping=, a few with its own Manager)",
-        "observed __getitem__ keys per step: the bounded representative set ObsGetKeys of Storage.tla (all cells, per "
-        "axis its whole alphabet against two bases, wrong ranks, six all-slice keys); random histories: 27 sampled keys",
+        "observed __getitem__ keys: the bounded representative set ObsGetKeys of Storage.tla (all cells, per axis its "
+        "whole alphabet against two bases, wrong ranks, six all-slice keys), after the last step of every exported "
+        "history and after EVERY step of every 4th (thorough: 8th) one; all other observers after every step of every "
+        "history; random histories: 27 sampled keys after every step",
     ]
     classes = backend_classes()
     ctx.extra["backend_classes"] = sorted(classes)
+    _G["full_every"] = 4 if quick else 8
     _G["scratch"] = str(ctx.workdir("arrays"))
 
     phases: dict[str, float] = {}
@@ -773,7 +785,7 @@ def run(ctx: Ctx) -> None:
 
     # 2./3. exported universe -> real classes -> TLC
     accepted: list[dict] = []
-    universes = [(2, 3, 50, 200)] if quick else [(2, 3, 3000, 100000), (3, 3, 1500, 100000)]
+    universes = [(2, 3, 50, 200)] if quick else [(2, 3, 1500, 100000), (3, 3, 400, 100000)]
     n_seq = 0
     for size, depth, budget, keylimit in universes:
         geoms, seqs = export_universe(ctx, size, depth, budget, keylimit)
@@ -784,32 +796,35 @@ def run(ctx: Ctx) -> None:
             {"MaxSize": size, "geometries": len(geoms), "sequences": len(seqs),
              "KeyLimit": keylimit, "Budget": budget,
              "plans(depth,full_steps,keys,star)": sorted({(*x["plan"], x["nkeys"], x["star"]) for x in geoms})})
-        jobs = []
-        smd_every = 40 if quick else 12
-        for sid, (gid, ops) in enumerate(seqs):
-            for cn in classes:
-                if cn == "SharedMemoryDictArray":
-                    if sid % smd_every == 0:
-                        jobs.append((cn + ("" if sid % (smd_every * 8) == 0 else "+mapping"), gid, ops, "full", (size, sid)))
-                else:
-                    jobs.append((cn, gid, ops, "full", (size, sid)))
-            jobs.append((REF, gid, ops, "full", (size, sid)))
-        traces = run_many(jobs)
-        lap("replay_on_classes")
-        ok = validate_and_compare(ctx, traces, f"u{size}", "replay")
-        lap("tlc_validation")
-        accepted += ok[:: max(1, len(ok) // 40)]
-        for t in traces:
-            if "cls" in t and t["cls"] != REF:
-                g = t["g"]
-                nontriv = any(e["op"] == "dump" and not e["exc"] for e in t["ev"]) and \
-                    (bool(g["internal"]) or int(np.prod(g["shape"])) >= 2)
-                ctx.case({"cls": t["cls"], "g": g, "ops": t["ops"]}, nontrivial=nontriv)
-        mid = traces[len(traces) // 2]
-        ctx.sample({"cls": mid["cls"], "g": mid["g"], "ops": mid["ops"],
-                    "last_event": {k: v for k, v in mid["ev"][-1].items() if k != "o"},
-                    "last_mask_linear": mid["ev"][-1]["o"]["ml"]})
-    ctx.traces_validated += 0
+        smd_every = 40 if quick else 25
+        batch = 3000
+        for b0 in range(0, len(seqs), batch):
+            jobs = []
+            for sid in range(b0, min(b0 + batch, len(seqs))):
+                gid, ops = seqs[sid]
+                for cn in classes:
+                    if cn == "SharedMemoryDictArray":
+                        if sid % smd_every == 0:
+                            jobs.append((cn + ("" if sid % (smd_every * 8) == 0 else "+mapping"), gid, ops, "full", (size, sid)))
+                    else:
+                        jobs.append((cn, gid, ops, "full", (size, sid)))
+                jobs.append((REF, gid, ops, "full", (size, sid)))
+            traces = run_many(jobs)
+            lap("replay_on_classes")
+            ok = validate_and_compare(ctx, traces, f"u{size}_{b0}", "replay")
+            lap("tlc_validation")
+            accepted += ok[:: max(1, len(ok) // 20)][:20]
+            for t in traces:
+                if t["cls"] != REF:
+                    g = t["g"]
+                    nontriv = any(e["op"] == "dump" and not e["exc"] for e in t["ev"]) and \
+                        (bool(g["internal"]) or int(np.prod(g["shape"])) >= 2)
+                    ctx.case({"cls": t["cls"], "g": g, "ops": t["ops"]}, nontrivial=nontriv)
+            mid = next(t for t in traces[len(traces) // 2:] + traces if t["cls"] != REF)
+            ctx.sample({"cls": mid["cls"], "g": mid["g"], "ops": mid["ops"],
+                        "last_event": {k: v for k, v in mid["ev"][-1].items() if k != "o"},
+                        "last_mask_linear": mid["ev"][-1]["o"]["ml"]}, limit=4)
+            del traces
     ctx.exhaustive = True   # the whole exported universe was replayed on FileArray and DictArray (SharedMemory: sample)
 
     # 4. random histories on larger shapes
